@@ -27,7 +27,9 @@ inductive Instr where
   | getSet (k : Nat) (g : Getter)   -- `with cacher.get_set(k, getter) as v:`  (opens a with-block)
   | exit                            -- leave the innermost with-block normally
   | raise                           -- the with-body raises
-  | rmv (k : Nat) (f : Bool)        -- `cacher.rmv(k)`; `f`: the inner cacher's rmv raises if it gets called
+  | rmv (k : Nat) (f : Bool) (o : Bool)  -- `cacher.rmv(k)`; `f`: the inner cacher's rmv raises if it gets called;
+                                    -- `o`: the UNLOCKED `key in self` answers True although the entry is not (completely) cached —
+                                    -- a DiskCacher writes in place, so a half-written file of another process is visible to `exists()`
   deriving DecidableEq, Repr
 
 inductive Pc where
@@ -47,7 +49,7 @@ inductive Pc where
   | gsHRelR (k : Nat)               -- exception handler of get_set: `_release_read_lock`
   | gsHRelW (k : Nat)               -- exception handler of get_set: `_release_write_lock`
   | exRel                           -- next: `_release_read_lock` of `_release_read_on_exit` (normal exit)
-  | rmChk (k : Nat) (f : Bool)      -- next: `key in self` of rmv (no lock held)
+  | rmChk (k : Nat) (f : Bool) (o : Bool)  -- next: `key in self` of rmv (no lock held)
   | rmAcqW (k : Nat) (f : Bool)     -- next: lock block of `_acquire_write_lock` in rmv
   | rmRemove (k : Nat) (f : Bool)   -- next: `self._cache.rmv(key)` (raises when `f`)
   | rmRelW (k : Nat)                -- next: `_release_write_lock` in rmv
@@ -113,7 +115,7 @@ def stepC (idx : Nat → Nat) (arr : Nat → Int) (cache : Nat → Option Nat) (
       if c.stack.isEmpty then some (.skip, arr, cache, { c with cur := r })
       else some (.begin, arr, cache, { c with cur := r, pc := .exRel })
     | .raise :: _ => some (.raiseBody, arr, cache, toUnwind c)
-    | .rmv k f :: r => some (.begin, arr, cache, { c with cur := r, pc := .rmChk k f })
+    | .rmv k f o :: r => some (.begin, arr, cache, { c with cur := r, pc := .rmChk k f o })
     | [] =>
       if !c.stack.isEmpty then some (.begin, arr, cache, { c with pc := .exRel })
       else match c.rest with
@@ -171,12 +173,16 @@ def stepC (idx : Nat → Nat) (arr : Nat → Int) (cache : Nat → Option Nat) (
       some (.relR k, upd arr (idx k) (arr (idx k) - 1), cache,
             { c with book := upd c.book k (c.book k - 1), stack := t, pc := .idle })
     | [] => none
-  | .rmChk k f =>
+  | .rmChk k f o =>
     match cache k with
     | some _ =>
       if c.book k ≠ 0 then some (.contains k true, arr, cache, toUnwind c)   -- CobaException "unrecoverable state"
       else some (.contains k true, arr, cache, { c with pc := .rmAcqW k f })
-    | none => some (.contains k false, arr, cache, { c with pc := .idle })
+    | none =>
+      if o then
+        if c.book k ≠ 0 then some (.contains k true, arr, cache, toUnwind c)
+        else some (.contains k true, arr, cache, { c with pc := .rmAcqW k f })
+      else some (.contains k false, arr, cache, { c with pc := .idle })
   | .rmAcqW k f =>
     if arr (idx k) = 0 then
       some (.acqW k, upd arr (idx k) (-1), cache, { c with book := upd c.book k (-1), pc := .rmRemove k f })
@@ -258,7 +264,7 @@ def segOk (ok : List Nat → Nat → Bool) : List Nat → List Instr → Bool
   | st, .getSet k _ :: r => ok st k && segOk ok (k :: st) r
   | st, .exit :: r => segOk ok st.tail r
   | _, .raise :: _ => true
-  | st, .rmv k _ :: r => ok st k && segOk ok st r
+  | st, .rmv k _ _ :: r => ok st k && segOk ok st r
 
 /-- the property's exclusion: a caller never operates on a key that collides with a *different*
 key it is currently reading -/
@@ -306,6 +312,16 @@ def sumBy (f : Caller → Nat) : List Caller → Nat
 
 def St.R (idx : Nat → Nat) (s : St) (i : Nat) : Nat := sumBy (fun c => c.rc idx i) s.cs
 def St.W (idx : Nat → Nat) (s : St) (i : Nat) : Nat := sumBy (fun c => c.wc idx i) s.cs
+
+
+/-! ### what an unlocked `exists()` of a DiskCacher can see -/
+
+/-- some caller is between creating the file of key `k` and closing it -/
+def partialWriter (s : St) (k : Nat) : Bool :=
+  s.cs.any (fun c => match c.pc with | .gsPopW k' _ => k' == k | _ => false)
+
+/-- `DiskCacher.__contains__` = `exists()`: true for a complete entry and for a half-written file -/
+def unlockedSees (s : St) (k : Nat) : Bool := (s.cache k).isSome || partialWriter s k
 
 /-! ### wait-for graph -/
 
@@ -387,7 +403,7 @@ def Pc.rank : Pc → Nat
   | .idle => 2 | .gsAcqR _ _ => 14 | .gsChk1 _ _ => 13 | .gsGet1 _ => 7 | .gsRelR _ _ => 12
   | .gsAcqW _ _ => 11 | .gsChk2 _ _ => 10 | .gsSwA _ => 8 | .gsGet2 _ => 7 | .gsPop _ _ => 9 | .gsPopW _ _ => 8
   | .gsSwB _ _ => 7 | .gsEnter _ _ => 6 | .gsHRelR _ => 4 | .gsHRelW _ => 3 | .exRel => 1
-  | .rmChk _ _ => 6 | .rmAcqW _ _ => 5 | .rmRemove _ _ => 4 | .rmRelW _ => 3 | .rmHRelW _ => 3 | .unwind => 2
+  | .rmChk _ _ _ => 6 | .rmAcqW _ _ => 5 | .rmRemove _ _ => 4 | .rmRelW _ => 3 | .rmHRelW _ => 3 | .unwind => 2
 
 def restWeight : List (List Instr) → Nat
   | [] => 0
@@ -415,7 +431,7 @@ def hierC (idx : Nat → Nat) (c : Caller) : Prop :=
   | .gsSwB k _ => segOk (hierOk idx) (k :: c.stack) c.cur = true
   | .gsEnter k _ => segOk (hierOk idx) (k :: c.stack) c.cur = true
   | .exRel => segOk (hierOk idx) c.stack.tail c.cur = true
-  | .rmChk k _ => hierOk idx c.stack k = true ∧ segOk (hierOk idx) c.stack c.cur = true
+  | .rmChk k _ _ => hierOk idx c.stack k = true ∧ segOk (hierOk idx) c.stack c.cur = true
   | .rmAcqW k _ => hierOk idx c.stack k = true ∧ segOk (hierOk idx) c.stack c.cur = true
   | .rmRemove _ _ => segOk (hierOk idx) c.stack c.cur = true
   | .rmRelW _ => segOk (hierOk idx) c.stack c.cur = true
